@@ -490,6 +490,22 @@ def run(cx, rep):
         all_tags = [unparen(method_call(n)[2][0])["value"] for n in walk(fn) if n["type"] == "CallExpression" and method_call(n) and method_call(n)[1] == "updateTag"
                     and method_call(n)[2] and unparen(method_call(n)[2][0])["type"] == "StringLiteral"]
         delegating = not all_tags and any(method_call(n) and method_call(n)[1] == "hash256" for n in walk(fn) if n["type"] == "CallExpression")
+        if delegating:
+            # a wrapper that writes nothing of its own is sound only if it is transparent for validation as well: its
+            # validate() must be nothing but the child's validate() (an alias); a wrapper that accepts or rejects
+            # anything by itself (optional, nullable, refinement) and leaves no mark in the encoding makes two
+            # validators that disagree share a digest
+            _, vm = fam.resolve_method(cname, "validate")
+            transparent = False
+            if vm is not None and vm["function"].get("body") is not None:
+                stmts = [st for st in vm["function"]["body"]["stmts"] if st["type"] != "VariableDeclaration"]
+                if len(stmts) == 1 and stmts[0]["type"] == "ReturnStatement" and stmts[0].get("argument") is not None:
+                    mcv = method_call(stmts[0]["argument"])
+                    vps = ts_common.fn_params(vm["function"])
+                    transparent = bool(mcv) and mcv[1] == "validate" and [s(a) for a in mcv[2]] == vps[:2]
+            rep.ob("C13.3", "%s/silent-wrapper-is-transparent" % cname, transparent,
+                   "%s.hash256 writes nothing of its own and only forwards to a child, but %s.validate is not a plain forward: what the wrapper adds to or removes from the accepted values is invisible in the digest" % (cname, cname),
+                   cm.loc(fn), sample={"class": cname, "validate_is_plain_forward": transparent})
         if first is None and not delegating and not (cname, "<leading-tag>") in derived:
             # a class may branch first (e.g. Nullish writes one of several tags): accept when every path starts with a tag
             starts = all_tags
